@@ -59,8 +59,9 @@ Indexes == (0 - (N + 1))..N                 \* Python subscripts tried, both sig
 Slices  == {<<0, 1>>, <<1, 3>>, <<0, N>>, <<2, 2>>}     \* s[lo:hi], non-negative bounds, clamped like Python
 
 VARIABLES S, M, act, steps, done,
-          R          \* the set returned by a set-valued call, kept as a SECOND object: <<>> (none) or <<contents>>
-vars == <<S, M, act, steps, done, R>>
+          R,         \* the set returned by a set-valued call, kept as a SECOND object: <<>> (none) or <<contents>>
+          C          \* a copy of the map made by constructing another ordered map from it: <<>> (none) or <<pairs>>
+vars == <<S, M, act, steps, done, R, C>>
 
 None == "None"
 \* pos: for the map writes, the 1-based position written / removed (0 otherwise); not an observable of one
@@ -120,16 +121,16 @@ MapOperands(m) == IF FullMapOps THEN SmallMaps \cup Variants(m) ELSE Variants(m)
 NewArgs == IF Kind = "map" THEN PairSeqs(MaxNew) ELSE {}     \* pair lists given to the constructor (constant)
 
 ----------------------------------------------------------------------------
-Init == /\ S = {} /\ M = <<>> /\ act = A("init", None, None, "") /\ steps = 0 /\ done = FALSE /\ R = <<>>
+Init == /\ S = {} /\ M = <<>> /\ act = A("init", None, None, "") /\ steps = 0 /\ done = FALSE /\ R = <<>> /\ C = <<>>
 
 Mut(S2, M2, a) ==
     /\ ~done /\ steps < MaxSteps
-    /\ S' = S2 /\ M' = M2 /\ act' = a /\ steps' = steps + 1 /\ done' = FALSE /\ R' = R
+    /\ S' = S2 /\ M' = M2 /\ act' = a /\ steps' = steps + 1 /\ done' = FALSE /\ R' = R /\ C' = C
 
 ObsEnabled == IF Interleave THEN steps < MaxSteps ELSE steps \in ObserveAt
 Obs(a) ==
     /\ ~done /\ ObsEnabled
-    /\ UNCHANGED <<S, M, R>> /\ act' = a
+    /\ UNCHANGED <<S, M, R, C>> /\ act' = a
     /\ steps' = IF Interleave THEN steps + 1 ELSE steps
     /\ done' = ~Interleave
 
@@ -139,7 +140,9 @@ IsMap == Kind = "map"
 SetOp == IsSet /\ ~done /\ R = <<>>
 \* once a set-valued call has handed out a second object only the aliasing probes below are offered
 ROp   == IsSet /\ ~done /\ R # <<>>
-MapOp == IsMap /\ ~done
+MapOp == IsMap /\ ~done /\ C = <<>>
+\* once a copy exists only the operations addressing the copy / the independence probes below are offered
+COp   == IsMap /\ ~done /\ C # <<>>
 
 (* ---- SortedSet mutators ---- *)
 SNew(T)    == SetOp /\ steps = 0 /\ Mut(T, M, A("new", T, None, ""))              \* SortedSet(iterable)
@@ -197,7 +200,7 @@ Derived(op, T) == CASE op \in ZeroOps -> S
                     [] op = "symmetric_difference" -> SymDiff(S, T)
 DeriveChoices == {<<op, {}>> : op \in ZeroOps} \cup {<<op, T>> : op \in OneOps, T \in Operands \cup {{}, S}}
 SDerive == SetOp /\ ObsEnabled /\ \E c \in DeriveChoices :
-              /\ UNCHANGED <<S, M>> /\ R' = <<Derived(c[1], c[2])>>
+              /\ UNCHANGED <<S, M, C>> /\ R' = <<Derived(c[1], c[2])>>
               /\ act' = A("derive", c, Derived(c[1], c[2]), "")
               /\ steps' = (IF Interleave THEN steps + 1 ELSE steps) /\ done' = FALSE
 
@@ -207,9 +210,9 @@ Apply(X, m) == CASE m[1] = "add" -> X \cup {m[2]}
                  [] m[1] = "pop" -> IF X = {} THEN X ELSE X \ {Max(X)}
 ProbeAct(name, X, m) == IF m[1] = "pop" THEN (IF X = {} THEN A(name, m, None, "KeyError") ELSE A(name, m, Max(X), ""))
                                         ELSE A(name, m, None, "")
-SMutR(m) == ROp /\ UNCHANGED <<S, M, steps>> /\ R' = <<Apply(R[1], m)>>                \* result.add / clear / pop
+SMutR(m) == ROp /\ UNCHANGED <<S, M, C, steps>> /\ R' = <<Apply(R[1], m)>>                \* result.add / clear / pop
                 /\ act' = ProbeAct("mut_result", R[1], m) /\ done' = TRUE
-SMutS(m) == ROp /\ UNCHANGED <<M, R, steps>> /\ S' = Apply(S, m)                       \* s.add / clear / pop
+SMutS(m) == ROp /\ UNCHANGED <<M, R, C, steps>> /\ S' = Apply(S, m)                       \* s.add / clear / pop
                 /\ act' = ProbeAct("mut_original", S, m) /\ done' = TRUE
 
 (* ---- OrderedMap mutators ---- *)
@@ -235,6 +238,32 @@ MNeMap       == MapOp /\ \E o \in MapOperands(M) : Obs(A("ne_map", o, M # o, "")
 MEqDict      == MapOp /\ \E o \in MapOperands(M) : Obs(A("eq_dict", o, AsFun(M) = AsFun(o), ""))  \* a dict: order is irrelevant
 MNeDict      == MapOp /\ \E o \in MapOperands(M) : Obs(A("ne_dict", o, AsFun(M) # AsFun(o), ""))
 
+(* ---- an ordered map constructed from another ordered map ---- *)
+\* MCopy: a second map object holding the same pairs in the same order.  how = "ctor": OrderedMap(m), a plain
+\* OrderedMap whatever the class of m (copying a column value, an OrderedMapSerializedKey, is the usual case);
+\* how = "assign": an empty map of m's own class filled by item assignment.  The copy is then addressed by key:
+\* every key of M is found in it, assigning to a present key overwrites in place, deleting works; changing the
+\* copy leaves M alone and changing M leaves the copy alone.  These operations end the behaviour.
+CopyHows == {"ctor", "assign"}
+MCopy(how) == MapOp /\ ObsEnabled /\ UNCHANGED <<S, M, R>> /\ C' = <<M>>
+                 /\ act' = A("copy", how, None, "")
+                 /\ steps' = (IF Interleave THEN steps + 1 ELSE steps) /\ done' = FALSE
+Term(a, M2, C2) == COp /\ UNCHANGED <<S, R, steps>> /\ M' = M2 /\ C' = C2 /\ act' = a /\ done' = TRUE
+CGetItem(k)  == COp /\ IF Index(C[1], k) = 0 THEN Term(A("c_getitem", k, None, "KeyError"), M, C)
+                                      ELSE Term(A("c_getitem", k, C[1][Index(C[1], k)][2], ""), M, C)
+CGet(k)      == COp /\ Term(A("c_get", k, IF Index(C[1], k) = 0 THEN None ELSE C[1][Index(C[1], k)][2], ""), M, C)
+CContains(k) == COp /\ Term(A("c_contains", k, Index(C[1], k) # 0, ""), M, C)
+CLen         == COp /\ Term(A("c_len", None, Len(C[1]), ""), M, C)
+CItems       == COp /\ Term(A("c_items", None, C[1], ""), M, C)
+CSetItem(k, v) == COp /\ Term(AP("c_setitem", <<k, v>>, None, "", Index(Insert(C[1], k, v), k)), M, <<Insert(C[1], k, v)>>)
+CDelItem(k)  == COp /\ IF Index(C[1], k) = 0 THEN Term(A("c_delitem", k, None, "KeyError"), M, C)
+                                      ELSE Term(AP("c_delitem", k, None, "", Index(C[1], k)), M, <<RemoveAt(C[1], Index(C[1], k))>>)
+CPopItem     == COp /\ IF C[1] = <<>> THEN Term(A("c_popitem", None, None, "KeyError"), M, C)
+                               ELSE Term(A("c_popitem", None, C[1][Len(C[1])], ""), M, <<Front(C[1])>>)
+SrcSetItem(k, v) == COp /\ Term(A("src_setitem", <<k, v>>, None, ""), Insert(M, k, v), C)      \* the source changes, the copy not
+SrcDelItem(k)    == COp /\ IF Index(M, k) = 0 THEN Term(A("src_delitem", k, None, "KeyError"), M, C)
+                                       ELSE Term(A("src_delitem", k, None, ""), RemoveAt(M, Index(M, k)), C)
+
 SetNext ==
     \/ \E T \in Operands : SNew(T) \/ SUpdate(T) \/ SIOr(T) \/ SIAnd(T) \/ SISub(T) \/ SIXor(T)
     \/ \E e \in Elems : SAdd(e) \/ SRemove(e) \/ SContains(e)
@@ -251,6 +280,10 @@ MapNext ==
     \/ \E k \in Keys : (\E v \in Vals : MSetItem(k, v)) \/ MDelItem(k) \/ MGetItem(k) \/ MGet(k) \/ MContains(k)
     \/ MPopItem \/ MLen \/ MKeys \/ MValues \/ MItems
     \/ MEqMap \/ MNeMap \/ MEqDict \/ MNeDict
+    \/ \E how \in CopyHows : MCopy(how)
+    \/ \E k \in Keys : \/ CGetItem(k) \/ CGet(k) \/ CContains(k) \/ CDelItem(k) \/ SrcDelItem(k)
+                       \/ \E v \in Vals : CSetItem(k, v) \/ SrcSetItem(k, v)
+    \/ CLen \/ CItems \/ CPopItem
 
 \* one TLC run per data type (Kind is a constant, so only one disjunct is ever enabled)
 Next == SetNext \/ MapNext
@@ -263,6 +296,7 @@ TypeOK == /\ S \subseteq Elems /\ steps \in 0..MaxSteps /\ done \in BOOLEAN
           /\ M \in Seq(Pairs) /\ Len(M) <= N
           /\ act.exc \in {"", "KeyError", "IndexError"}
           /\ Len(R) <= 1 /\ (R # <<>> => R[1] \subseteq Elems) /\ (IsMap => R = <<>>)
+          /\ Len(C) <= 1 /\ (C # <<>> => (C[1] \in Seq(Pairs) /\ DistinctKeys(C[1]))) /\ (IsSet => C = <<>>)
 
 \* iteration is strictly ascending, duplicate free, and enumerates exactly S; len = cardinality
 IterationSorted ==
@@ -324,6 +358,11 @@ MapResults ==
     /\ (act.name = "popitem" /\ act.exc # "") => M = <<>>
     /\ (IsMap /\ act.name = "new") => KeysOf(M) = {act.arg[i][1] : i \in 1..Len(act.arg)}
     /\ (act.name = "eq_map" /\ act.res) => AsFun(M) = AsFun(act.arg)     \* equal as sequences => equal as mappings
+    /\ (IsMap /\ act.name = "copy") => C = <<M>>
+    /\ (act.name = "c_setitem") => (Index(C[1], act.arg[1]) = act.pos /\ C[1][act.pos] = act.arg)
+    /\ (act.name = "c_delitem") => Index(C[1], act.arg) = 0
+    /\ (act.name \in {"c_getitem", "c_get", "c_contains", "c_len", "c_items", "c_setitem", "c_delitem", "c_popitem",
+                       "src_setitem", "src_delitem"}) => (C # <<>> /\ done)
 
 Others(m, k) == SelectSeq(m, LAMBDA p : p[1] # k)
 
@@ -336,7 +375,13 @@ MapOrderStable ==
              /\ (Index(M, k) = 0 => Index(M', k) = Len(M) + 1)
         /\ (IsMap /\ act'.name = "delitem") => M' = Others(M, act'.arg)
         /\ (act'.name = "popitem" /\ act'.exc = "") => M = Append(M', act'.res)
-        /\ (done' /\ act'.name # "mut_original") => (S' = S /\ M' = M)
+        /\ (done' /\ act'.name \notin {"mut_original", "src_setitem", "src_delitem"}) => (S' = S /\ M' = M)
+        /\ (act'.name = "c_setitem") =>
+             LET k == act'.arg[1] IN
+             /\ Others(C'[1], k) = Others(C[1], k)
+             /\ (Index(C[1], k) # 0 => (Index(C'[1], k) = Index(C[1], k) /\ Len(C'[1]) = Len(C[1])))
+             /\ (Index(C[1], k) = 0 => Index(C'[1], k) = Len(C[1]) + 1)
+        /\ (act'.name \in {"src_setitem", "src_delitem"}) => C' = C
       ]_vars
 
 Invariants == TypeOK /\ IterationSorted /\ SetAlgebra /\ SetResults /\ MapWellFormed /\ MapResults
@@ -352,5 +397,6 @@ Witness_ResultClearedOriginalKept == ~(act.name = "mut_result" /\ act.arg[1] = "
                                         /\ steps >= 2)
 Witness_OriginalClearedResultKept == ~(act.name = "mut_original" /\ act.arg[1] = "clear" /\ S = {} /\ R # <<>>
                                         /\ Cardinality(R[1]) >= 2)
+Witness_CopyOverwritePresent == ~(act.name = "c_setitem" /\ act.pos < Len(C[1]) /\ Len(M) >= 2 /\ steps >= 2)
 Witness_PopItemEmpty     == ~(act.name = "popitem" /\ act.exc = "KeyError" /\ steps >= 2)
 =============================================================================
